@@ -43,6 +43,9 @@ let () =
   let distinct = ref 0 in
   let samples = ref 0 in
   let maxrep = 25 in
+  (* input distribution for the evidence: cases by leading integer (the kind / first field) and by length *)
+  let firsts : (int, int ref) Hashtbl.t = Hashtbl.create 64 in
+  let lens = Array.make 6 0 in
   (try
     while true do
       let line = input_line stdin in
@@ -57,6 +60,15 @@ let () =
             | Some h -> String.trim (String.sub rest 0 h), String.sub rest h (String.length rest - h) in
           let c = parse_ints cs and o = parse_ints os in
           incr n;
+          (match c with
+           | z :: _ -> let k = int_of_z z in
+               (match Hashtbl.find_opt firsts k with Some r -> incr r
+                | None -> if Hashtbl.length firsts < 17 then Hashtbl.add firsts k (ref 1)
+                          else (match Hashtbl.find_opt firsts min_int with Some r -> incr r | None -> Hashtbl.add firsts min_int (ref 1)))
+           | [] -> ());
+          (let l = List.length c in
+           let b = if l <= 4 then 0 else if l <= 16 then 1 else if l <= 64 then 2 else if l <= 256 then 3 else if l <= 1024 then 4 else 5 in
+           lens.(b) <- lens.(b) + 1);
           let m = vp_run c in
           if not (matches m o) then begin
             incr mism;
@@ -80,5 +92,10 @@ let () =
       end
     done
   with End_of_file -> ());
+  Printf.printf "DIST first=%s len=%s\n"
+    (if Hashtbl.mem firsts min_int then "many-values"
+     else String.concat "," (List.map (fun (k, r) -> string_of_int k ^ ":" ^ string_of_int !r)
+                          (List.sort compare (Hashtbl.fold (fun k r acc -> (k, r) :: acc) firsts []))))
+    (String.concat "," (List.mapi (fun i v -> string_of_int i ^ ":" ^ string_of_int v) (Array.to_list lens)));
   Printf.printf "STATS n=%d nontriv=%d distinct_nontriv=%d mismatch=%d specfail=%d badlines=%d\n"
     !n !nontriv !distinct !mism !specfail !bad
